@@ -65,6 +65,8 @@ same process and then evaluates `<op>` on the network's streamer; the model has 
 def handle : Handler := fun op args =>
   match op, args with
   | "dialect_then", op' :: args' => handleCore op' args'
+  -- `asview <kind> <op> …`: the script is handed over as a bytearray / memoryview instead of bytes: same answer
+  | "asview", _kind :: op' :: args' => handleCore op' args'
   | _, _ => handleCore op args
 
 end Pycoin.Driver.C12
